@@ -7,7 +7,7 @@ PROFILE = {"publish": 6, "ack": 3, "inbound": 4, "connect": 8, "fault": 5, "rest
 
 
 def keep(l):
-    return l.startswith(("ret ", "blocked", "close", "disconnect", "rs ", "pub ", "exch", "ev close", "ev w "))
+    return l.startswith(("ret ", "blocked", "close", "disconnect", "rs ", "pub ", "exch", "ev close", "ev w ", "sig "))
 
 
 def mon_closed(tr, sc):
